@@ -7,7 +7,7 @@ the waveform encodes:
    for sd > 0, s[7] is the probability that the value at a normally distributed capture time is 1 (compared with 1e-9 tolerance) and s[8]
    is compared only where it is not sampled (probability >= 0.99 or <= 0.01).
 The family: initial value 0/1, 0..6 transitions, capacities 4 and 8 (also completely filled lines: terminator in the last entry), overflow marker,
-stale entries behind the terminator, capture times before / at / between / after the transitions and the default (TMAX), sd in {0, 0.75},
+stale entries behind the terminator, capture times 0.0 (before every transition) / at / between / after the transitions and the default (TMAX), sd in {0, 0.75},
 an unconnected output (no memory location), three lanes, a launch grid that over-covers the arrays. Bounded evaluation of the code, not a proof."""
 from __future__ import annotations
 
@@ -187,7 +187,7 @@ def raw(repo):
     wfs = waveforms(K)
     n = len(wfs)
     lanes = 3
-    times = [K['TMAX'], 0.5, 2.6, 2.75, 100.0]
+    times = [K['TMAX'], 0.0, 2.6, 2.75, 100.0]         # default, before every transition (and a falsy number), between, exactly at one, after all
     bad = {}
     agree = None
     evals = 0
